@@ -53,3 +53,78 @@ PROPS["C20"] = dict(
     require_counters={"any": {"points_checked": 100000}},
     assumptions=["the real applis/eperftool/blocking_struct.c is compiled; its printf goes to /dev/null"],
 )
+
+_codec_assume = ["protocol-conforming histories only (one submission style, at most one of_finish_decoding, nothing after it)",
+                 "ground truth = the source data the harness gave to the library's own encoder; repair symbols come from that encoder",
+                 "default build configuration (64-bit little-endian, OF_DEBUG off, ML decoding on)"]
+
+PROPS["C01"] = dict(
+    jobs=BOTH,
+    rule="one case = one decoder session: (codec, k, r, L, N1, seed, payload) x received subset x arrival order/duplicates x API x finish x callback mode; "
+         "all 2^n subsets for the small configurations, sampled around k for the large ones; after every API call the source table is compared byte for byte with the encoded symbols. "
+         "non-trivial = at least one source symbol was decoded rather than received; distinct = hash of the full history",
+    budget_s={"quick": 900, "thorough": 7200},
+    require_counters={"any": {"decoded_during_submission": 100, "decoded_during_finish": 100, "api_set_available_symbols": 100}},
+    assumptions=_codec_assume,
+)
+
+PROPS["C02"] = dict(
+    jobs=BOTH,
+    rule="one case = one Reed-Solomon decoder session (codec 1, codec 2 m=8, codec 2 m=4) on a received subset, order, API; all 2^n subsets for n<=10 (quick) / n<=15 (thorough, i.e. every 1<=k<n<=15 of GF(2^4)), "
+         "sampled k-subsets and supersets up to n=255; the monitor counts distinct ESIs (the MDS property) and compares decoded symbols with the encoded ones. "
+         "non-trivial = a matrix decode happened (>=1 source decoded) or fewer than k symbols were followed by of_finish_decoding",
+    budget_s={"quick": 900, "thorough": 7200},
+    require_counters={"any": {"decoded_during_submission": 100, "decoded_during_finish": 100, "api_set_available_symbols": 100}},
+    assumptions=_codec_assume,
+)
+PROPS["C03"] = dict(
+    jobs=BOTH,
+    rule="one case = one LDPC-Staircase session: received subset (all 2^n for small n, sampled in the k..k+15% window for large), order, API, then of_finish_decoding; "
+         "oracle = GF(2) rank of the received generator-form vectors restricted to the unknown sources (generator obtained black-box from an identity-payload encoding). "
+         "non-trivial = the peeling closure was incomplete, i.e. Gaussian elimination decided the outcome",
+    budget_s={"quick": 900, "thorough": 7200},
+    require_counters={"any": {"outcome_solvable_complete": 100, "outcome_unsolvable_incomplete": 100}},
+    assumptions=_codec_assume + ["the known-zero last repair symbol counts as received when the decoder session reports IS_LAST_SYMBOL_NULL"],
+)
+PROPS["C04"] = dict(
+    jobs=BOTH,
+    rule="one case = one LDPC-Staircase streaming history (any order, duplicates), observed after EVERY of_decode_with_new_symbol call: available sources == source part of the peeling closure "
+         "(own incremental peeling on the parity-check equations derived black-box from the encoder), completion flag == closure contains all sources. non-trivial = at least one submission",
+    budget_s={"quick": 900, "thorough": 7200},
+    require_counters={"any": {"prefix_checks": 10000, "decoded_during_submission": 100}},
+    assumptions=_codec_assume + ["equations are taken in staircase form: row j = (g_j xor g_{j-1}) on the sources plus repair j and j-1"],
+)
+PROPS["C10"] = dict(
+    jobs=BOTH,
+    rule="one case = one decoder session of any of the four codec variants; after every API call the return status, of_is_decoding_complete and of_get_source_symbols_tab are compared with each other and with the shadow model "
+         "(which ESIs were submitted while still unknown); of_finish_decoding is issued in every state incl. already complete. non-trivial = at least one submission or a finish call",
+    budget_s={"quick": 900, "thorough": 7200},
+    require_counters={"any": {"finish_called_complete_after": 100, "finish_called_incomplete_after": 100}},
+    assumptions=_codec_assume,
+)
+PROPS["C11"] = dict(
+    jobs=BOTH,
+    rule="one case = one decoder session with a decoded-source-symbol callback registered (returns a guarded buffer / NULL / alternating / NULL for odd ESIs / with a repair callback too); "
+         "shadow model of submitted and available ESIs; every decoded symbol must have exactly one callback with (esi<k, size=L), the table must report the returned buffer or a library allocation. non-trivial = at least one callback fired",
+    budget_s={"quick": 900, "thorough": 7200},
+    require_counters={"any": {"callbacks_observed": 1000, "callbacks_returning_null": 100, "decoded_during_finish": 100}},
+    assumptions=_codec_assume,
+)
+PROPS["C07"] = dict(
+    jobs=BOTH,
+    rule="one case = one encoder or decoder session history (all codecs, both APIs, all callback modes, early release, both roles) with every application buffer exact-size: "
+         "ASan/UBSan build = heap blocks of exactly L bytes at every alignment, before/after checksums; -O3 build = each buffer flush against a PROT_NONE page, received symbols and encoder sources PROT_READ, canary before. all cases non-trivial",
+    budget_s={"quick": 900, "thorough": 7200},
+    require_counters={"any": {"library_calls": 100000}},
+    assumptions=_codec_assume + ["red zones and guard pages detect adjacent violations; a wild access into another live object is caught only if it changes observable data"],
+)
+PROPS["C08"] = dict(
+    jobs=[dict(variant="rel"), dict(variant="asan", env={"OFH_LSAN": "1"})],
+    crash_policy="inconclusive",
+    rule="one case = one session (encoder, decoder, or both roles) released at an arbitrary point: unconfigured, configured, after j submissions, after IT completion, after successful / failed of_finish_decoding; "
+         "link-level allocation ledger (--wrap=malloc,calloc,realloc,free): at return from of_release_codec_instance the live library blocks minus the decoded source symbols visible in the source table must be empty, "
+         "and no free of a pointer the ledger does not hold; LeakSanitizer at process exit on the ASan build. all cases non-trivial",
+    budget_s={"quick": 900, "thorough": 7200},
+    require_counters={"any": {"ledger_allocations": 100000}},
+    assumptions=_codec_assume + ["the harness-as-application frees exactly what the API says it owns (decoded source symbols, NULL-slot repair symbols)"],
+)
